@@ -17,6 +17,7 @@ TRICKY_STRINGS = [
     "//c", "/*c*/", "/*", "*/", "#", "# x", "%s", "%(a)s", "%", "{0}", "{}", "{a}", "{{", "$x", "`x`",
     "x y", "a,b", "(a)", "(1,2)", "[1]", "a:b", "a;b", "def", "return", "weighted", "not in", "else if",
     "a" * 300,
+    "a    b", "        ", "x\t\ty", "  lead", "trail  ", "a\u00a0\u00a0\u00a0\u00a0b", "a \t b",
 ]
 
 NUM_TEXTS_INT = ["0", "1", "2", "7", "10", "18", "21", "99", "100", "007", "00", "2134", "9007199254740992",
